@@ -29,7 +29,10 @@ fn profile() -> Profile {
 
 /// programs that neither read remaining gas / time / randomness nor swallow failures of sub-calls
 fn gas_program(rng: &mut Rng, depth: u32, stores: &[String]) -> Cd {
-    match rng.below(if depth == 0 { 12 } else { 8 }) {
+    match rng.below(if depth == 0 { 14 } else { 8 }) {
+        // refund-dominated: clears 2-6 slots (set to non-zero by a preceding block), gas used after refunds is far
+        // below what must be available up front
+        12 | 13 => Cd::Sstore((0..rng.range(2, 6)).map(|i| (20 + i, 0)).collect()),
         0 | 1 => Cd::Sstore((0..rng.range(1, 6)).map(|_| (rng.below(8), rng.below(5))).collect()),
         2 => Cd::Log { topics: (0..rng.below(5)).map(|_| rng.below(4)).collect(), data_len: rng.below(60) as u8 },
         3 => Cd::Echo(rng.below(60) as u8),
@@ -74,7 +77,7 @@ impl Prop for C16 {
         v
     }
     fn rule(&self) -> String {
-        "case = seeded history (commits, reorgs) that leaves some Store contracts deployed, then 4-10 probes at the block boundary. Each probe draws a program (storage loops, logs, cheap loops, nested CALL, STATICCALL to precompiles, CREATE2, revert) and (a) submits it with an inscription length from {0,1,2,need-1,need,need+1,2*need,2000,10^6,2^64-1}: receipt gasUsed <= min(len*12000, 2^64-1), and a failed transaction leaves accounts/code/storage unchanged except its sender's nonce; (b) closes the estimate loop: eth_estimateGas -> brc20_call with inscription_byte_len = ceil(estimate/12000) must succeed with the output eth_call returned. distinct = sha256 of (ops, probe seed); non-trivial = at least one estimate loop closed and one transaction failed for lack of allowance".into()
+        "case = seeded history (commits, reorgs) that leaves some Store contracts deployed, then 4-10 probes at the block boundary. Each probe draws a program (storage loops, refund-dominated slot clearing, logs, cheap loops, nested CALL, STATICCALL to precompiles, CREATE2, revert) and (a) submits it, as hex or as raw / zstd base64, with an inscription length from {0,1,2,need-1,need,need+1,2*need,2000,10^6,2^64-1}: receipt gasUsed <= min(len*12000, 2^64-1), and a failed transaction leaves accounts/code/storage unchanged except its sender's nonce; (b) closes the estimate loop: eth_estimateGas -> brc20_call with inscription_byte_len = ceil(estimate/12000) must succeed with the output eth_call returned. distinct = sha256 of (ops, probe seed); non-trivial = at least one estimate loop closed and one transaction failed for lack of allowance".into()
     }
     fn assumptions(&self) -> Vec<String> {
         vec!["programs that swallow sub-call failures (Multi) or read GAS/TIMESTAMP/PREVRANDAO/0xfa are excluded, as the statement allows".into()]
@@ -118,6 +121,15 @@ impl Prop for C16 {
                 let target = Target::Addr(rng.pick(&stores).clone());
                 let data = gas_program(&mut rng, 0, &stores);
                 let from = Who::Pk(sender);
+                if let Cd::Sstore(pairs) = &data {
+                    if pairs.iter().all(|(slot, v)| *v == 0 && *slot >= 20) {
+                        id += 1;
+                        let fill = Cd::Sstore(pairs.iter().map(|(slot, _)| (*slot, 7)).collect());
+                        let setup_tx = Tx { id, kind: TxKind::Call { sender, target: target.clone(), by_inscription: false, data: fill }, len: LenPolicy::Generous, enc: Enc::Hex };
+                        w.exec(base, &Op::Block { ts: 950_000 + id as u64, hash: HashMode::Zero, txs: vec![setup_tx], finalise: true });
+                        w.stats.bump("probe_refund_dominated_program");
+                    }
+                }
                 // ---- (b) estimate loop
                 let call = w.eth_call_obj(&from, &Some(target.clone()), &data, &None);
                 let est = w.inst.call("eth_estimateGas", json!([call]));
@@ -149,7 +161,16 @@ impl Prop for C16 {
                 let close_loop = need.is_some() && rng.chance(1, 2);
                 let len = if close_loop { need.unwrap() } else { choose_len(&mut rng, need) };
                 id += 1;
-                let tx = Tx { id, kind: TxKind::Call { sender, target: target.clone(), by_inscription: false, data: data.clone() }, len: LenPolicy::Exact(len), enc: Enc::Hex };
+                // the payload travels as hex or as (compressed) base64: the allowance is a function of the reported length only
+                let enc = match rng.below(5) {
+                    0..=2 => Enc::Hex,
+                    3 => Enc::B64Raw { pad: 0 },
+                    _ => Enc::B64Zstd { pad: 0 },
+                };
+                if enc != Enc::Hex {
+                    w.stats.bump("probe_base64_payload");
+                }
+                let tx = Tx { id, kind: TxKind::Call { sender, target: target.clone(), by_inscription: false, data: data.clone() }, len: LenPolicy::Exact(len), enc };
                 let ts = 1_000_000 + id as u64;
                 w.op_index = base + 1 + k as usize;
                 // sometimes another transaction of the same block burns its whole (possibly saturated) allowance
